@@ -24,7 +24,7 @@ func TestGolden(t *testing.T) {
 		t.Fatalf("only %d ok_*.go snippets found", len(files))
 	}
 	for _, f := range files {
-		text, _, _, err := translateSource(f, "")
+		text, _, _, err := translateSource(f)
 		if err != nil {
 			t.Errorf("%s: %v", f, err)
 			continue
@@ -85,7 +85,7 @@ func TestRejects(t *testing.T) {
 			continue
 		}
 		re := regexp.MustCompile(strings.TrimPrefix(first, "// want: "))
-		_, _, _, err := translateSource(f, "")
+		_, _, _, err := translateSource(f)
 		msg := ""
 		if err != nil {
 			msg = err.Error()
@@ -134,5 +134,27 @@ func TestGoldenCompiles(t *testing.T) {
 		if out, err := cmd.CombinedOutput(); err != nil || strings.Contains(string(out), "error") {
 			t.Errorf("%s does not check in Lean: %v\n%s", g, err, out)
 		}
+	}
+}
+
+// TestLayoutIndependent: the same package as one file and split into three files (other declaration order, codec
+// methods written differently and through a helper) gives byte-identical Lean; the codec methods are recognised by
+// content and are not translated
+func TestLayoutIndependent(t *testing.T) {
+	one, _ := filepath.Glob("testdata/layout1/*.go")
+	three, _ := filepath.Glob("testdata/layout2/*.go")
+	a, _, _, err := translateSource(one...)
+	if err != nil || len(lastFailed) > 0 {
+		t.Fatalf("layout1: %v %v", err, lastFailed)
+	}
+	b, _, _, err := translateSource(three...)
+	if err != nil || len(lastFailed) > 0 {
+		t.Fatalf("layout2: %v %v", err, lastFailed)
+	}
+	if a != b {
+		t.Errorf("the generated Lean depends on the file layout:\n%s", firstDiff(a, b))
+	}
+	if !strings.Contains(a, `("MarshalMsg", ["AppendUint64", "Require", "Uint64Size"])`) || strings.Contains(a, "def Coin_MarshalMsg") {
+		t.Errorf("codec methods not handled by content:\n%s", a)
 	}
 }
